@@ -230,6 +230,17 @@ end Btc.C07
 namespace Btc.C07
 open Btc Btc.TxCreate
 
+/-- a sweep with more than one "rest" target (amount 0) is refused: no requested recipient is silently left out (finding F89) -/
+theorem sweep_one_rest (r : SweepReq) (l : List Nat) (hl : r.outs = some l) (p : Nat × List Nat) (h : sweepPlan r = some p) :
+    (l.filter (· = 0)).length ≤ 1 := by
+  unfold sweepPlan at h
+  by_cases hm : multiRest r = true
+  · rw [if_pos hm] at h; cases h
+  · unfold multiRest at hm
+    rw [hl] at hm
+    simp only [decide_eq_true_eq] at hm
+    omega
+
 /-- T7 (sweep): a sweep that is not refused pays out every swept satoshi: the amounts plus the
 fee equal the sum of the inputs it names (the unspent outputs above the dust limit), and
 something above the dust limit is left after the fee. -/
@@ -237,6 +248,9 @@ theorem sweep_balanced (r : SweepReq) (fee : Nat) (amounts : List Nat) (h : swee
     amounts.sum + fee = (r.values.filter (· > r.dust)).sum ∧
     (r.dust : Int) < ((r.values.filter (· > r.dust)).sum : Int) - fee := by
   unfold sweepPlan at h
+  by_cases hm : multiRest r = true
+  · rw [if_pos hm] at h; cases h
+  rw [if_neg hm] at h
   by_cases h0 : r.values.isEmpty = true
   · rw [if_pos h0] at h; cases h
   · rw [if_neg h0] at h
